@@ -131,7 +131,7 @@ func (bA *BitArray) Or(o *BitArray) *BitArray {
 	bA.mtx.Lock()
 	defer bA.mtx.Unlock()
 	c := bA.copyBits(MaxInt(int(bA.Bits), int(o.Bits)))
-	for i := 0; i < len(c.Elems); i++ {
+	for i := 0; i < len(c.Elems) && i < len(o.Elems); i++ {
 		c.Elems[i] |= o.Elems[i]
 	}
 	return c
@@ -178,7 +178,7 @@ func (bA *BitArray) Sub(o *BitArray) *BitArray {
 	if bA.Bits > o.Bits {
 		c := bA.copy()
 		for i := 0; i < len(o.Elems)-1; i++ {
-			c.Elems[i] &= ^c.Elems[i]
+			c.Elems[i] &= ^o.Elems[i]
 		}
 		i := len(o.Elems) - 1
 		if i >= 0 {
@@ -354,7 +354,16 @@ func (bA *BitArray) FromProto(protoBitArray *kprotobits.BitArray) {
 		return
 	}
 
-	bA.Bits = uint(protoBitArray.Bits)
+	// Bits and Elems come from the wire: an array whose word count does not
+	// match its bit count is treated as empty, so that no later index is out of range.
+	bits := protoBitArray.Bits
+	words := int64(len(protoBitArray.Elems))
+	if bits < 0 || bits > words*64 || (bits+63)/64 != words {
+		bA.Bits = 0
+		bA.Elems = nil
+		return
+	}
+	bA.Bits = uint(bits)
 	if len(protoBitArray.Elems) > 0 {
 		bA.Elems = protoBitArray.Elems
 	}
